@@ -241,7 +241,7 @@ def main(run):
     run.run_findings()
     rng = common.Rng(run.seed)
     pipe_checks(run, rng)
-    if not run.violations:
+    if not run.concrete():
         a = session("ideal", run.seed)
         b = session("pty", run.seed)
         run.count("session", ("session",))
